@@ -179,15 +179,23 @@ func scriptRoutine(script int) keyed.Routine {
 }
 
 // keyedHistory enumerates every operation sequence of the given depth on Keyed.
-func keyedHistory(depth int) func() {
+func keyedHistory(depth int) func() { return keyedHistoryOpt(depth, false) }
+
+// keyedHistoryOpt: with negDelay the release delay is always configured, as a negative duration
+// (documented to mean its magnitude).
+func keyedHistoryOpt(depth int, negDelay bool) func() {
 	return func() {
-		delay := vsched.Choose(2) == 1
+		delay := negDelay || vsched.Choose(2) == 1
+		delayArg := time.Second
+		if negDelay {
+			delayArg = -time.Second
+		}
 		ctxSet := vsched.Choose(2) == 1
 		script := vsched.Choose(3)
 		m := newKModel(delay, ctxSet, script)
 		var opts []keyed.Option[string, int]
 		if delay {
-			opts = append(opts, keyed.WithReleaseDelay[string, int](time.Second))
+			opts = append(opts, keyed.WithReleaseDelay[string, int](delayArg))
 		}
 		ctors := 0
 		k := keyed.NewKeyed(func(key string) (keyed.Routine, int) {
@@ -366,6 +374,12 @@ func init() {
 		Doc:   "Keyed: every sequence of 5 operations over {SetKey(a|b,start f|t), RemoveKey(a|b), SyncKeys({},{a},{b},{a,b},{a,a,b}+restart,{a,a}), FireEarliestTimer} x release delay {0,d} x context {unset,set} x routine script {blocks, returns nil, returns error}; after every operation GetKeys/GetKey/GetKeysWithData and the call's results are compared with a reference model; finally every armed delay expires",
 		Quick: eng.Bounds{PB: 0, Cap: 8000000}, Thorough: eng.Bounds{PB: 0},
 		Body: keyedHistory(5),
+	})
+	eng.Register(&eng.Scenario{
+		Name: "keyed-history-negdelay", Props: []string{"C06"}, Det: true, Manual: true, NoRace: true, ObsNames: ops,
+		Doc:   "Keyed: as keyed-history with sequences of 4 operations and the release delay configured as a negative duration (documented to mean its magnitude)",
+		Quick: eng.Bounds{PB: 0}, Thorough: eng.Bounds{PB: 0},
+		Body: keyedHistoryOpt(4, true),
 	})
 	eng.Register(&eng.Scenario{
 		Name: "keyed-history-deep", Props: []string{"C06"}, ThoroughOnly: true, Det: true, Manual: true, NoRace: true, ObsNames: ops,
